@@ -19,16 +19,15 @@ theorem rtVal_empty {v : Val} (h : rtVal v = .bytes []) : v = .bytes [] := by
 theorem cbGood_enc (cb : Cb) (h : CbGood cb) :
     encCb cb = .ok (encRaw cb) ∧ EncOk (encRaw cb) (rtCb cb) ∧ 12 ≤ (encRaw cb).length := by
   obtain ⟨t, v, m, un, rfl, ht, hv, hm, hu⟩ := h
-  have key : ∀ rest, (v = .bytes [] → rest ≠ []) → ∃ bs, encCb ⟨t, rcOf v, sizeOf v, 0, m, un, some v⟩ = .ok bs ∧
+  have key : ∀ rest, ∃ bs, encCb ⟨t, rcOf v, sizeOf v, 0, m, un, some v⟩ = .ok bs ∧
       bs.length ≥ 12 ∧ readCb (bs ++ rest) = .ok (⟨t, rcOf v, sizeOf v, 0, m, un, some (rtVal v)⟩, rest) :=
-    fun rest hne => cb_enc_read t v m un rest ht hv hm hu hne
-  obtain ⟨bs0, he0, hl0, _⟩ := key [0] (by intro _; simp)
+    fun rest => cb_enc_read t v m un rest ht hv hm hu
+  obtain ⟨bs0, he0, hl0, _⟩ := key []
   have hraw : encRaw ⟨t, rcOf v, sizeOf v, 0, m, un, some v⟩ = bs0 := by simp [encRaw, he0]
   refine ⟨by rw [hraw]; exact he0, ⟨?_, ?_⟩, by rw [hraw]; exact hl0⟩
   · rw [hraw]; intro h; rw [h] at hl0; simp at hl0
-  · intro rest hne
-    obtain ⟨bs, he, _, hr⟩ := key rest (by
-      intro hv0; apply hne; simp [rtCb, hv0, rtVal])
+  · intro rest
+    obtain ⟨bs, he, _, hr⟩ := key rest
     have : bs = bs0 := by rw [he0] at he; cases he; rfl
     rw [hraw, ← this]; exact hr
 
@@ -124,11 +123,6 @@ theorem getByLabel_map_rt (r : List Cb) (lab : Bytes) : getByLabel (r.map rtCb) 
     split
     · rfl
     · exact ih
-
-theorem mnemOk_map_rt (r : List Cb) (h : MnemOk r) : MnemOk (r.map rtCb) := by
-  rcases h with h | ⟨c, b, hc, hv⟩
-  · left; rw [getByLabel_map_rt, h]; rfl
-  · right; exact ⟨rtCb c, b, by rw [getByLabel_map_rt, hc]; rfl, by simp [rtCb, hv, rtVal]⟩
 
 theorem length_le_flatMap (items : List (Bytes × Cb)) (h : ∀ p ∈ items, 1 ≤ p.1.length) :
     items.length ≤ (items.flatMap (·.1)).length := by
